@@ -2,6 +2,7 @@
 # selftest/run.sh [pattern]: every must_fail patch must make its property's check exit 1,
 # every must_pass patch must leave all named checks at exit 0. Patch name = <PROP>-<what>.patch
 cd /verif
+export VERIF_EVIDENCE_DIR=/var/tmp/verif-scratch/evidence-mut
 if [ -n "$(git -C /repo status --short)" ]; then echo "REFUSING: /repo dirty"; exit 2; fi
 fail=0
 for f in selftest/must_fail/*${1:-}*.patch; do
